@@ -6,9 +6,9 @@ mod verif_kani {
     use crate::{vk_assume, vk_cover};
     use std::path::{Component, Path};
 
-    const N: usize = 3;
+    const N: usize = 2;
 
-    // @HARNESS id=C05.confine.lexical tier=quick kind=Kb props=C05 bound="every ASCII relative path of 0..=3 bytes (url::Url::parse over-approximated: its path() may be any string), destination /d" timeout=2400
+    // @HARNESS id=C05.confine.lexical tier=quick kind=Kb props=C05 bound="every relative path of 0..=2 bytes over the alphabet {. / a} (url::Url::parse over-approximated: its path() may be any string), destination /d" timeout=1500
     /// confined_destination returns only paths strictly below the destination directory, without any `..` component
     #[cfg(kani)]
     #[kani::proof]
@@ -20,7 +20,7 @@ mod verif_kani {
         vk_assume!(n <= N);
         let mut i = 0;
         while i < N {
-            vk_assume!(buf[i] < 128);
+            vk_assume!(buf[i] == b'.' || buf[i] == b'/' || buf[i] == b'a');
             i += 1;
         }
         let s = match std::str::from_utf8(&buf[..n]) { Ok(s) => s, Err(_) => return };
@@ -37,9 +37,9 @@ mod verif_kani {
                 }
             }
             assert!(depth >= 2);
-            vk_cover!(n == 3);
-        } else {
             vk_cover!(n == 2);
+        } else {
+            vk_cover!(n == 1);
         }
     }
 }
